@@ -145,6 +145,16 @@ WIRE_FAULTS = {
     'keepalive-200': ((200, 4, None), (1, 2)),
     'refresh-511': ((511, 5, None), (1, 2)),
 }
+# faults found only once the BODY is read (ESTABLISHED; Adj-RIB-In on so that the UPDATE is decoded): name -> (type, body), expected
+BODY_FAULTS = {
+    # RFC 4271 6.3: Withdrawn Routes Length + Total Attribute Length + 23 exceeds the message Length -> Malformed Attribute List
+    'update-attribute-length-overrun': ((2, bytes([0, 0, 1, 0]) + bytes([0x40, 1, 1, 0] * 5)), (3, 1)),
+    # 6.3: the same with a Withdrawn Routes Length which runs past the end of the message
+    'update-withdrawn-length-overrun': ((2, bytes([0, 200]) + bytes(20)), (3, 1)),
+}
+# how the octets of the erroneous message reach the reader: at once, or in two TCP segments with a silence between them which is
+# longer than two of the established loop's read timeouts (0.1 s each): the cut inside the header, or after the header and part of the body
+SPLITS = ('whole', 'cut-in-header', 'cut-in-body')
 
 
 def h_wire_fault(ctx, hold=9):
@@ -154,27 +164,37 @@ def h_wire_fault(ctx, hold=9):
     import struct
     from kits import session as S
     state = ctx.pick('state', ['OPENSENT', 'OPENCONFIRM', 'ESTABLISHED'])
-    fault = ctx.pick('fault', sorted(WIRE_FAULTS))
-    (length, mtype, marker), want = WIRE_FAULTS[fault]
-    conf = S.mk_conf(local_as=C5.LOCAL_AS, peer_as=C5.PEER_AS, hold=hold, families=('ipv4 unicast',))
+    fault = ctx.pick('fault', sorted(WIRE_FAULTS) + (sorted(BODY_FAULTS) if state == 'ESTABLISHED' else []))
+    split = ctx.pick('split', SPLITS)
+    if fault in BODY_FAULTS:
+        (mtype, body), want = BODY_FAULTS[fault]
+        length, marker = 19 + len(body), None
+    else:
+        (length, mtype, marker), want = WIRE_FAULTS[fault]
+        body = bytes(min(max(length - 19, 0), 64))
+    conf = S.mk_conf(local_as=C5.LOCAL_AS, peer_as=C5.PEER_AS, hold=hold, families=('ipv4 unicast',), adj_rib_in=fault in BODY_FAULTS)
     neighbor = S.neighbor_from(conf)
     neighbor.api = dict(neighbor.api)
     neighbor.reset_rib()
     good = {'OPENSENT': [], 'OPENCONFIRM': [P.msg(1, C5.open_body(hold=hold))],
             'ESTABLISHED': [P.msg(1, C5.open_body(hold=hold)), P.KEEPALIVE]}[state]
-    bad = (marker or b'\xff' * 16) + struct.pack('!HB', length, mtype) + bytes(min(max(length - 19, 0), 64))
-    feeder = P.ByteFeeder([('data', b''.join(good) + bad), ('pause', 0.35), ('eof',)])
+    bad = (marker or b'\xff' * 16) + struct.pack('!HB', length, mtype) + body
+    cut = {'whole': len(bad), 'cut-in-header': 17, 'cut-in-body': 19 + len(body) // 2}[split]
+    if cut >= len(bad) and split != 'whole':
+        ctx.assume(False, 'the message has no octet after the cut')
+    ctx.cover('split-' + split)
+    feeder = P.ByteFeeder([('data', b''.join(good) + bad[:cut])] + ([('pause', 0.35), ('data', bad[cut:])] if cut < len(bad) else []) + [('pause', 0.35), ('eof',)])
     peer = P.new_peer(neighbor, feeder)
     result = P.drive(peer._run(), max_steps=4000)
     w = P.WORLD
     notes = [(c, sc) for _, c, sc in P.notifications()]
     written = P.written_types()
-    info = {'state': state, 'fault': fault, 'notifications': notes, 'written': ['%s:%d' % t for t in written], 'fsm': ['%s>%s' % t for t in w.fsm], 'result': result[0]}
+    info = {'state': state, 'fault': fault, 'split': split, 'notifications': notes, 'written': ['%s:%d' % t for t in written], 'fsm': ['%s>%s' % t for t in w.fsm], 'result': result[0]}
     reached = {'OPENSENT': ('CONNECT', 'OPENSENT'), 'OPENCONFIRM': ('OPENSENT', 'OPENCONFIRM'), 'ESTABLISHED': ('OPENCONFIRM', 'ESTABLISHED')}[state]
     ctx.check('state-reached', reached in w.fsm, sig='C10:wire:harness:state-%s-not-reached' % state, info=info)
     ctx.cover('wire-fault-%d-%d' % want)
     ctx.check('right-notification', notes == [want],
-              sig='C10:wire:%s-in-%s:want=%d/%d:got=%s' % (fault, state, want[0], want[1], ','.join('%d/%d' % g for g in notes) or 'none'), info=info)
+              sig='C10:wire:%s-in-%s%s:want=%d/%d:got=%s' % (fault, state, '' if split == 'whole' else ':' + split, want[0], want[1], ','.join('%d/%d' % g for g in notes) or 'none'), info=info)
     ctx.check('notification-is-last', not written or written[-1][1] == 3, sig='C10:wire:written-after-notification', info=info)
     ctx.check('transport-closed', w.closed >= 1, sig='C10:wire:transport-left-open', info=info)
     return [state, fault, notes]
@@ -270,7 +290,7 @@ def units(tier):
     us.append(Unit('faults/e2-i0-h0', lambda ctx: h_session(ctx, 2, 0, hold=0), must_cover=('notified', 'fault-2'), max_paths=300000, max_seconds=600, weight=30))
     us.append(Unit('two-sessions/fault-in-the-second', h_sessions_in_a_row, weight=40, max_seconds=600,
                    must_cover=('notified', 'silent', 'graceful-restart-teardown', 'second-session-incoming')))
-    us.append(Unit('wire/header-faults', h_wire_fault, must_cover=('wire-fault-1-1', 'wire-fault-1-2', 'wire-fault-1-3'), weight=20, max_seconds=600))
+    us.append(Unit('wire/header-faults', h_wire_fault, must_cover=('wire-fault-1-1', 'wire-fault-1-2', 'wire-fault-1-3', 'wire-fault-3-1', 'split-cut-in-header', 'split-cut-in-body'), weight=20, max_seconds=600))
     if th:
         us.append(Unit('faults/e5-i0', lambda ctx: h_session(ctx, 5, 0), must_cover=cov, max_paths=2000000, max_seconds=1500, weight=200))
         us.append(Unit('faults/e4-i1-h0', lambda ctx: h_session(ctx, 4, 1, hold=0), must_cover=('notified',), max_paths=2000000, max_seconds=1500, weight=200))
